@@ -41,6 +41,26 @@ Definition venom_epilogue (src d codelen imm : Z) (runtime : list Z) (m : mem) :
   let m2 := mwrite m1 d runtime in
   mread m2 d (Z.to_nat (codelen + imm)).
 
+(* the two concrete copy instructions of _emit_deploy_epilogue:
+   cancun+     MCOPY(dst, src, len)                              (EIP-5656: as if the source were read first)
+   pre-cancun  STATICCALL(gas, 0x04, src, len, dst, len)         (identity precompile: the input is read, the call
+               returns it as return data, and min(out_len, returndatasize) bytes are written to dst; the epilogue
+               asserts success) *)
+Definition mcopy (m : mem) (dst src : Z) (len : nat) : mem := mwrite m dst (mread m src len).
+Definition identity_call (m : mem) (src : Z) (in_len : nat) (dst : Z) (out_len : nat) : mem :=
+  let returndata := mread m src in_len in
+  mwrite m dst (firstn out_len returndata).
+
+Definition venom_epilogue_cancun (src d codelen imm : Z) (runtime : list Z) (m : mem) : list Z :=
+  let m1 := if 0 <? imm then mcopy m (d + codelen) src (Z.to_nat imm) else m in
+  let m2 := mwrite m1 d runtime in
+  mread m2 d (Z.to_nat (codelen + imm)).
+
+Definition venom_epilogue_precancun (src d codelen imm : Z) (runtime : list Z) (m : mem) : list Z :=
+  let m1 := if 0 <? imm then identity_call m src (Z.to_nat imm) (d + codelen) (Z.to_nat imm) else m in
+  let m2 := mwrite m1 d runtime in
+  mread m2 d (Z.to_nat (codelen + imm)).
+
 (* ---- mini EVM for the blueprint stub *)
 Record st := mk { pc : Z; stk : list Z; mm : mem }.
 
